@@ -418,6 +418,8 @@ def impl_from_opgraph(op):
 
     def f():
         g = build_graph(op['graph'])
+        if op.get('flip'):
+            g.flip()
         opmap = opmap_of(op['opmap'])
         mpo = MPO.from_opgraph(op['qd'], g, opmap, compute_nid_map=op['nid_map'])
         r = {'qD': [[int(x) for x in q] for q in mpo.qD],
